@@ -42,6 +42,8 @@ def _kind(fi: FunctionInfo, e: ast.AST, eng, depth=0) -> Set[str]:
         if txt(e.func) == "copy.deepcopy" and e.args:
             return _kind(fi, e.args[0], eng, depth + 1)
         return {"?"}
+    if isinstance(e, ast.IfExp):
+        return _kind(fi, e.body, eng, depth + 1) | _kind(fi, e.orelse, eng, depth + 1)
     if isinstance(e, ast.UnaryOp):
         return _kind(fi, e.operand, eng, depth + 1)
     if isinstance(e, ast.BinOp):
@@ -164,14 +166,15 @@ class State:
 
 
 class MoveAnalysis:
-    def __init__(self, ctx, fi: FunctionInfo, fields: Dict[str, str], res):
+    def __init__(self, ctx, fi: FunctionInfo, fields: Dict[str, str], res, v_name=None, depth=0):
         self.ctx = ctx
         self.fi = fi
         self.fields = fields
         self.res = res
         self.g = ctx.cfg(fi)
         self.sn = fi.self_name
-        self.v = fi.params[1]
+        self.depth = depth
+        self.v = v_name if v_name is not None else fi.params[1]
         self.pos = {f for f, k in fields.items() if k == "positional"}
         self.cache = {f for f, k in fields.items() if k == "cache"}
         self.axis_of = point_axes(ctx) if fi.cls.name == "Point" else {}
@@ -269,6 +272,24 @@ class MoveAnalysis:
                     # a loop element being moved: the container it came from is handled at re-assignment;
                     # the element itself now depends on v
                     taint.add(recv.id)
+        # a helper method of the same object that (re)builds fields: its effect on the refreshed set is computed by the
+        # same analysis run over its body, starting from the current state
+        if isinstance(a, (ast.Expr, ast.Assign)) and self.depth < 3:
+            for c in ast.walk(a.value):
+                if isinstance(c, ast.Call) and isinstance(c.func, ast.Attribute) and isinstance(c.func.value, ast.Name) \
+                        and c.func.value.id == self.sn and self.fi.cls is not None:
+                    callee = self.fi.cls.lookup(c.func.attr)
+                    if callee is None or callee is self.fi or callee.self_name is None:
+                        continue
+                    writes = any(isinstance(x, ast.Attribute) and isinstance(x.value, ast.Name) and x.value.id == callee.self_name
+                                 and isinstance(x.ctx, ast.Store) for x in walk_local(callee.node))
+                    if not writes:
+                        continue
+                    sub = MoveAnalysis(self.ctx, callee, self.fields, self.res, v_name="\0no translation parameter", depth=self.depth + 1)
+                    out = sub.run_from([sub.g.entry], State(fresh, (), axes))
+                    if out is not None:
+                        fresh = set(out.fresh)
+                        self.mismatch += sub.mismatch
         if isinstance(a, ast.AugAssign) and isinstance(a.op, ast.Add):
             t = a.target
             # self.x += v[i]   (Point)          self.sv[i] += v[i]   (Line)
@@ -334,10 +355,26 @@ class MoveAnalysis:
                 starts += g.edge_targets(c.id, "T")
         if not starts:
             raise AnalysisError("%s: no isinstance(%s, Vector) test found" % (self.fi.where(), self.v))
+        return self.solve(starts, State())
+
+    def run_from(self, starts, init: State) -> Optional[State]:
+        """state at the normal exits when the body is entered in state `init` (helper methods)"""
+        IN = self.solve(starts, init)
+        g = self.g
+        outs = [self.transfer(g.nodes[p], IN[p]) for p, _ in g.pred[g.exit] if p in IN]
+        if not outs:
+            return None
+        st = outs[0]
+        for o in outs[1:]:
+            st = st.meet(o)
+        return st
+
+    def solve(self, starts, init: State):
+        g = self.g
         IN: Dict[int, State] = {}
         work = []
         for s in starts:
-            IN[s] = State()
+            IN[s] = init
             work.append(s)
         while work:
             n = work.pop()
